@@ -275,7 +275,7 @@ theorem link_of_closedD {env : Env} {file : AFile} {n : Nat} {G : List String} (
       have : valTyS (goodStructs env) (goodEnums env) e = true := by simpa [valTy, valTyS] using hval
       exact valTyS_noParam this
     obtain ⟨m1, m2, m3⟩ := refRuntime_mem _ e hx hnp
-    have hmid : ∀ g, g ∈ (GFile.mk (refRuntime (collectRuntimeTypes file).refs)).funcs → g ∈ (goFilePreSt env file n).1.funcs := by
+    have hmid : ∀ g, g ∈ (GFile.mk (refRuntime (collectRuntimeTypes env file).refs)).funcs → g ∈ (goFilePreSt env file n).1.funcs := by
       intro g hg
       rw [hfuncs]
       refine List.mem_append_right _ (List.mem_append_left _ ?_)
@@ -318,7 +318,7 @@ theorem link_of_closedD {env : Env} {file : AFile} {n : Nat} {G : List String} (
       have := hval.1.2
       intro heq; rw [heq] at this; revert this; decide
     obtain ⟨m1, m2⟩ := arrayRuntime_mem _ len e hx hlen
-    have hmid : ∀ g, g ∈ (GFile.mk (arrayRuntime (collectRuntimeTypes file).arrays)).funcs → g ∈ (goFilePreSt env file n).1.funcs := by
+    have hmid : ∀ g, g ∈ (GFile.mk (arrayRuntime (collectRuntimeTypes env file).arrays)).funcs → g ∈ (goFilePreSt env file n).1.funcs := by
       intro g hg
       rw [hfuncs]
       refine List.mem_append_right _ (List.mem_append_left _ ?_)
